@@ -198,11 +198,27 @@ def container_obligations():
     return obs
 
 
+def destroy_obligations():
+    obs = []
+    gi = []
+    for f in ["vm_core_execute", "vm_call_function", "vm_execute", "vm_init", "vm_link_module", "vm_error_string", "vm_get_result"]:
+        gi += ["--remove-function-body", f]
+    for v, nm in ((1, "globals"), (2, "stack")):
+        obs.append(dict(id="C14.destroy." + nm, prop="C14", harness="harness/vm_destroy_h.c", entry="h_destroy",
+                        annotate=[("src/nanovm/vm.c", "contracts/loops/vm.c.destroy.%s.loops" % nm)], defines={"DESTROY_VIEW": v},
+                        gi_flags=gi, enforce="vm_destroy", replace=["vm_release", "vm_heap_destroy"], loops=True, unwind="auto",
+                        strength="U", functions=["vm_destroy"], timeout=600, flags=["--no-pointer-primitive-check"], tier="thorough",
+                        must_have=[r"vm_destroy\.postcondition", r"vm_release\.precondition", r"loop_invariant_step", r"decreases", r"COVER"],
+                        min_checks=30))
+    return obs
+
+
 def obligations(repo):
     obs = []
     obs.append(dict(id="C14.heap.retain", prop="C14", harness=HEAP, entry="h_retain", enforce="vm_retain", unwind=5,
                     strength="U", functions=["vm_retain"], must_have=[r"vm_retain\.postcondition", r"COVER"], min_checks=10))
     obs += release_obligations()
     obs += container_obligations()
+    obs += destroy_obligations()
     obs += step_obligations()
     return obs
